@@ -13,19 +13,24 @@ HARNESS_TIMEOUT = 3600
 
 TRUSTED = [
     "Lean 4 kernel; axioms of every theorem audited (propext, Classical.choice, Quot.sound at most)",
-    "hand-written runner model lean/CppUModel/Model/Runner.lean (Utest::run, runOneTest, plugins, registry loop with the "
-    "group start/end clock reads, repeat loop, console printing incl. -v, -vv, -c, progress dots, rethrow mode), tied to the "
-    "sources by the h_c01 correspondence of this run in both build variants (with and without C++ exceptions): every printed "
-    "string, every executed statement, every plugin action with the setjmp depth at which it ran, every clock reading",
+    "hand-written runner model lean/CppUModel/Model/Runner.lean (runOneTest, plugins, registry loop with the group start/end clock "
+    "reads, repeat loop, console printing incl. -v, -vv, -c, progress dots, rethrow mode, -p), tied to the sources by the h_c01 "
+    "correspondence of this run in both build variants (with and without C++ exceptions): every printed string, every executed "
+    "statement, every plugin action with the setjmp depth at which it ran, every clock reading. Utest::run (both variants), "
+    "UtestShell::runOneTestInCurrentProcess, TestOutput::printFailure with everything it calls (both working-environment formats), "
+    "TestFailure::isOutsideTestFile/isInHelperFunction, ConsoleTestOutput::printBuffer/flush and the CompositeTestOutput forwarders "
+    "are NOT trusted as hand models any more: their code is regenerated and the hand model is proved equal to its interpretation",
+    "interpreters of the regenerated code in lean/CppUModel/Model/RunnerCode.lean (semantics of a statement list, C++ handler "
+    "selection = first matching catch clause, a stdio stream = visible + pending data, _exit discards pending data)",
     "contract of setjmp/longjmp and of C++ unwinding: a function called through PlatformSpecificSetJmp leaves by return, by "
     "PlatformSpecificLongJmp to the innermost saved buffer, or by an exception that runs no code of the platform layer "
     "(modelled, not verified; the depth after every test is observed through hook H1)",
-    "translate/extract_runner.py: jump-buffer array length, TestResult::isFailure, the verdict condition of "
-    "TestOutput::printTestsEnded, the return expression of runAllTests (regenerated into Gen/RunnerConstants.lean; every "
-    "executable definition is also exercised by the correspondence), and the shape checks of "
-    "PlatformSpecificSetJmp/LongJmp/RestoreJumpBuffer, TestResult::addFailure, the rest of printTestsEnded and the repeat-loop "
-    "accumulation",
-    "statement of the theorems in Props/C01.lean and of the textbook definitions and the console reader in Spec/Runner.lean",
+    "translate/extract_runner.py (jump-buffer array length, TestResult::isFailure, verdict condition of printTestsEnded, return "
+    "expression of runAllTests; shape checks of SetJmp/LongJmp/RestoreJumpBuffer, TestResult::addFailure, the rest of "
+    "printTestsEnded, the repeat loop) and translate/extract_runner_code.py (token-level parser of the function bodies listed "
+    "above into statement lists; every executable result is also exercised by the correspondence: the driver renders failure "
+    "records and the real-stdout text from the regenerated sequences)",
+    "statement of the theorems in Props/C01.lean and of the textbook definitions and the console readers in Spec/Runner.lean",
 ]
 ASSUMPTIONS = [
     "-p (every test in a forked child): the child's counters are lost by design, so the parent's summary counts one failure per "
@@ -40,10 +45,17 @@ ASSUMPTIONS = [
     "terminating check in a pre/post action is outside the model",
     "an escaping exception has no location of its own: the record carries the test's file:line",
     "test code does not itself call PlatformSpecificSetJmp/LongJmp/RestoreJumpBuffer",
-    "console output, working environment eclipse (Gcc platform); the clock seam is scripted by the generator and its readings are "
-    "environment inputs of the model",
+    "console output; working environment eclipse (what the Gcc platform detects; regenerated) or visualStudio via "
+    "TestOutput::setWorkingEnvironment (op `env`); the clock seam is scripted by the generator and its readings are environment "
+    "inputs of the model (fixed at 0 in the real-stdout sub-mode)",
+    "real stdout: a stdio stream is modelled as visible + pending data with an unbounded buffer; fputs appends to pending, fflush "
+    "moves pending to visible, _exit / a kill discards pending (what the C library does is observed in the `realio` sub-mode, "
+    "where stdout is a fully buffered pipe)",
+    "CompositeTestOutput is exercised with the JUnit writer replaced by a second recording console output (-ojunit -v); the JUnit "
+    "writer itself is property C16's. -f (crash on failure) is covered by the regenerated statement orders only (the failure is "
+    "recorded before the terminator runs, the crashing terminators crash before leaving); the harness does not run it",
     "console_reader_full needs the free strings of the failing events (message, file names) not to be one of the three marker "
-    "strings ' Failure in ', 'OK (', 'Errors (' and no message to be a lone ':'",
+    "strings ' Failure in ', 'OK (', 'Errors (' and no message to be a lone ':' ('(' for console_reader_full_vs)",
 ]
 RULE = ("one real check per assert function / macro family (31 kinds incl. MEMCMP with length 0 and > 0, CHECK_COMPARE passing "
         "and failing, CHECK_THROWS, the C entry points), passing and failing, in every phase; "
@@ -53,8 +65,11 @@ RULE = ("one real check per assert function / macro family (31 kinds incl. MEMCM
         "and of mixed kinds; ignored tests, -ri, runs in which nothing runs but something is ignored (only IGNORE_TESTs, filters "
         "selecting only ignored tests, repeat > 1); strict filters incl. ones selecting nothing; plugins reporting errors in "
         "pre/post actions; -v, -vv, -c; scripted clock readings incl. a clock running backwards; 50/51/100 tests for the progress "
-        "line break; repeat forms -r, -rN, -r N; rethrow mode with and without a throwing test; both build variants. non-trivial "
-        "= at least one failure record or a 'ran nothing' summary; distinct = distinct op sequences")
+        "line break; repeat forms -r, -rN, -r N; rethrow mode with and without a throwing test; -p; the Visual Studio / eclipse / "
+        "detected working environment (op env); -ojunit -v runs through the CompositeTestOutput with output one recorded (op "
+        "composite); runs on the REAL stdout (a fully buffered pipe, real ConsoleTestOutput and fputs/fflush, mostly with -p) whose "
+        "bytes are read back (op realio); both build variants. non-trivial = at least one failure record or a 'ran nothing' "
+        "summary; distinct = distinct op sequences")
 
 GROUPS = ["g1", "g2", "g3"]
 NAMES = ["n%d" % i for i in range(1, 9)]
@@ -263,6 +278,48 @@ def gen_separate_case(rng, throw_free=False):
     return ops
 
 
+def env_line(rng):
+    """TestOutput::setWorkingEnvironment: the failure location in the Visual Studio form `file(line):`"""
+    return "env " + rng.choice(["vs", "vs", "vs", "eclipse", "detect"])
+
+
+def gen_composite_case(rng, throw_free=False):
+    """-ojunit with -v / -vv: the runner builds a CompositeTestOutput; the JUnit writer is replaced by a second
+    recording console output, so what output ONE receives is observed (each failure once per attached output)"""
+    g = Gen(rng, throw_free)
+    ops = [cfg_line(rng, verbosity=rng.choice([1, 1, 2, 3]), rethrow=False, separate=False)]
+    if rng.random() < 0.4:
+        ops.append(env_line(rng))
+    ops.append("composite")
+    if rng.random() < 0.5:
+        ops.append(clock_line(rng))
+    add_filters(rng, ops)
+    add_plugins(rng, ops)
+    for _ in range(rng.randrange(0, 7)):
+        g.test(ops, g.random_fails(0.6), ignored=rng.random() < 0.1)
+    ops.append("run")
+    return ops
+
+
+def gen_realio_case(rng, throw_free=False):
+    """the real ConsoleTestOutput on the real stdout (a fully buffered pipe) in a process of its own, mostly with -p:
+    what a child printed before its _exit must be on the pipe (every print is flushed)"""
+    g = Gen(rng, throw_free)
+    sep = rng.random() < 0.65
+    ops = [cfg_line(rng, rethrow=False, separate=sep)]
+    if rng.random() < 0.3:
+        ops.append(env_line(rng))
+    ops.append("realio")
+    add_filters(rng, ops)
+    if rng.random() < 0.5:
+        add_plugins(rng, ops)
+    n = rng.randrange(1, 7)
+    for i in range(n):
+        g.test(ops, g.random_fails(0.7), ignored=rng.random() < 0.1)
+    ops.append("run")
+    return ops
+
+
 def gen_rethrow_case(rng):
     """rethrow mode (no -e): the first std/foreign exception leaves runAllTests"""
     g = Gen(rng)
@@ -290,6 +347,8 @@ def gen_case(rng, ntests, throw_free=False, p_fail=0.45, long_run=None, verbosit
     """long_run: (length, kind or None): a run of consecutive failing tests inside the program"""
     g = Gen(rng, throw_free)
     ops = [cfg_line(rng, verbosity=verbosity)]
+    if rng.random() < 0.2:
+        ops.append(env_line(rng))
     if rng.random() < 0.6:
         ops.append(clock_line(rng))
     add_filters(rng, ops)
@@ -332,7 +391,8 @@ def gen_malformed(rng):
         elif x < 0.86 and pool:
             ops.append("test %s g1 n1 0 1 0" % rng.choice(pool))                                         # duplicate label
         elif x < 0.93:
-            ops.append(rng.choice(["test t99 g1 n1 7 1 0", "filter zz a", "filter sg a-b", "plugin p1", "cfg x 0 0 0 0", "frob",
+            ops.append(rng.choice(["env vs", "env x", "composite", "realio", "composite", "realio",
+                                   "test t99 g1 n1 7 1 0", "filter zz a", "filter sg a-b", "plugin p1", "cfg x 0 0 0 0", "frob",
                                    "clock 1 2", "clock 1 2 x", "cfg none 4 0 0 0", "cfg none 0 0 0", "cfg none 0 0 0 1 1", "cfg none 0 0 0 0 2"]))
         else:
             ops.append("run")                                                                            # run more than once
@@ -354,6 +414,10 @@ def stream(rng, tier, throw_free=False, scale=1.0):
         out.append(("ignored", gen_ignored_case(rng, throw_free)))
     for _ in range(int((120 if quick else 900) * scale)):
         out.append(("separate", gen_separate_case(rng, throw_free)))
+    for _ in range(int((100 if quick else 350) * scale)):
+        out.append(("composite", gen_composite_case(rng, throw_free)))
+    for _ in range(int((120 if quick else 350) * scale)):
+        out.append(("realio", gen_realio_case(rng, throw_free)))
     if not throw_free:
         for _ in range(int((80 if quick else 600) * scale)):
             out.append(("rethrow", gen_rethrow_case(rng)))
@@ -387,8 +451,14 @@ def generate(rng, tier):
 
 
 def translate(ctx):
-    from translate import extract_runner
-    return extract_runner.run()
+    from translate import extract_runner, extract_runner_code
+    problems = []
+    for ex in (extract_runner, extract_runner_code):
+        try:
+            problems += ex.run() or []
+        except Exception as e:      # the other extractor still refreshes its file
+            problems.append("%s cannot translate the current source: %s" % (ex.__name__.split(".")[-1], e))
+    return problems
 
 
 HEX_ERRORS = "4572726f72732028"            # "Errors ("
@@ -398,7 +468,8 @@ HEX_FAILURE_IN = "204661696c75726520696e20"  # " Failure in "
 
 
 def nontrivial(r):
-    return any(l == "t " + HEX_FAILURE_IN or l == "t " + HEX_NOTHING for l in r.impl)
+    return any(l == "t " + HEX_FAILURE_IN or l == "t " + HEX_NOTHING or (l.startswith("out ") and HEX_FAILURE_IN in l)
+               for l in r.impl)
 
 
 def observe(r, rep, prefix=""):
@@ -442,6 +513,21 @@ def observe(r, rep, prefix=""):
                 rep.count(prefix + "with.separate_process")
         elif l.startswith("> clock"):
             rep.count(prefix + "with.scripted_clock")
+        elif l.startswith("> env "):
+            rep.count(prefix + "with.env." + l.split()[2])
+        elif l == "> composite":
+            rep.count(prefix + "with.composite_output")
+        elif l == "> realio":
+            rep.count(prefix + "with.real_stdout")
+        elif l.startswith("out "):
+            if HEX_FAILURE_IN in l:
+                rep.count(prefix + "branch.real_stdout_failure_text")
+            if "4661696c656420696e2073657061726174652070726f63657373" in l:
+                rep.count(prefix + "branch.real_stdout_failed_in_separate_process")
+        elif l.startswith("u ") and l == "u " + HEX_FAILURE_IN:
+            rep.count(prefix + "branch.composite_output_one_failure")
+        elif l in ("t 28", "t 293a"):
+            rep.count(prefix + "branch.visual_studio_location")
         elif l == "t 4661696c656420696e2073657061726174652070726f63657373":
             rep.count(prefix + "branch.failed_in_separate_process")
         elif l.startswith("propagated "):
@@ -457,6 +543,8 @@ CLASSES = [("the runner crashed", "crash"), ("crash outside a run", "crash"),
            ("statements executed", "statement-after-terminator"),
            ("printed failure records", "failure-records"), ("an ignored test printed", "failure-records"),
            ("failures printed after the last test", "failure-records"),
+           ("on the real stdout", "real-stdout"), ("real stdout:", "real-stdout"),
+           ("output one of the composite", "composite-output"),
            ("jump-buffer depth", "jmp-depth"), ("current test after", "current-test"),
            ("per-test failed flag", "failed-flag"),
            ("summary printed", "summary"), ("summary line", "summary"),
@@ -534,18 +622,30 @@ LEVEL_TEXT = ("Machine-checked Lean 4 theorems over an executable model of the r
               "indexed out of range, by induction over the test list and the repetitions; the failure records of a repetition are "
               "exactly the failing events, in order, each once, with its own file:line, and failureCount is their number; a "
               "reader of the WHOLE console text (every position) gets back exactly these records and one summary per repetition "
-              "with the true counts (console_reader_full); the printed verdict condition and TestResult::isFailure (both "
-              "regenerated) agree, so the summary reads OK iff no failure and something ran or was ignored; every test is counted "
-              "once as run, ignored or filtered out (run also when its setup fails); the summary time is last minus first clock "
-              "reading; the progress line has one indicator per test and a break after every 50th; the return value is 0 iff "
-              "every repetition is fine, below 2^32 failures; in rethrow mode the first std/foreign exception is recorded once "
-              "and leaves runAllTests. The model is tied to the code on every run by a differential harness (real "
-              "CommandLineTestRunner, real macros, ASan/UBSan, both build variants, setjmp depth via hook H1, scripted clock) whose "
-              "observations are also judged by an independent specification oracle, and by regenerated constants/expressions with "
-              "shape checks.")
-LEVEL_NOTE = ("Trusted: Lean kernel; the hand-written model (validated token by token against the code in this run); the contract "
-              "of setjmp/longjmp/unwinding (modelled; depth observed); the extractor; theorem and spec statements. Not carried by "
-              "theorems: what the compiled setjmp/longjmp and the unwinder do (observed under ASan/UBSan on runs of up to 40, "
-              "thorough 300, consecutive failing tests); the int cast above 2^32 failures (witness theorems); that FAIL, FAIL_TEST "
-              "and UtestShell::fail are the same statement of the model is observed by the harness, not proved.")
-TECHNIQUE = "Lean 4 refinement proofs (operational runner model = declarative specification) + differential correspondence harness in two build variants + regenerated constants"
+              "with the true counts (console_reader_full; console_reader_full_vs for the Visual Studio location format); the "
+              "printed verdict condition and TestResult::isFailure (both regenerated) agree, so the summary reads OK iff no failure "
+              "and something ran or was ignored; every test is counted once as run, ignored or filtered out; the summary time is "
+              "last minus first clock reading; the return value is 0 iff every repetition is fine, below 2^32 failures; in rethrow "
+              "mode the first std/foreign exception is recorded once and leaves runAllTests. NEW: the code of Utest::run (both "
+              "variants: try blocks, statements, guard, every catch clause), of runOneTestInCurrentProcess, of "
+              "TestOutput::printFailure and its callees (both formats, layout conditions), of ConsoleTestOutput::printBuffer/flush and "
+              "the receiver table of CompositeTestOutput are REGENERATED from the source on every run as data and executed by "
+              "small interpreters; theorems prove the interpretation EQUAL to the hand-written model (utestRunGen_eq, "
+              "runOneTestInCurrentProcessGen_eq, runOneTestGen_eq, printFailure_is_the_source), so the lifecycle / depth / record "
+              "theorems are about the source as it is at check time (regenerated_test_outcome); every print of the console output "
+              "is followed by a flush, hence text printed by a process that then _exits (the child of -p) or is killed is on the "
+              "stream (printed_text_survives_process_end; flush_is_needed is the converse witness); each output of a "
+              "CompositeTestOutput receives every forwarded callback exactly once, in order "
+              "(composite_each_output_gets_every_callback). The model is tied to the code on every run by a differential harness "
+              "(real CommandLineTestRunner, real macros, ASan/UBSan, both build variants, setjmp depth via hook H1, scripted clock, "
+              "a composite sub-mode and a real-stdout sub-mode) whose observations are also judged by an independent specification "
+              "oracle, and by the regenerated code/constants with shape checks.")
+LEVEL_NOTE = ("Trusted: Lean kernel; the hand-written model of the registry/repeat loops, plugins, counters and progress output "
+              "(validated token by token against the code in this run); the interpreters' reading of a statement list; the contract "
+              "of setjmp/longjmp/unwinding and of stdio buffering (modelled; depth and real-stdout bytes observed); the extractors; "
+              "theorem and spec statements. Not carried by theorems: what the compiled setjmp/longjmp and the unwinder do (observed "
+              "under ASan/UBSan on runs of up to 40, thorough 300, consecutive failing tests); the int cast above 2^32 failures "
+              "(witness theorems); that FAIL, FAIL_TEST and UtestShell::fail are the same statement of the model is observed by the "
+              "harness, not proved; -f (crash on failure) is covered by regenerated statement orders only; the JUnit/TeamCity "
+              "writers behind -o are C16/C20.")
+TECHNIQUE = "Lean 4 refinement proofs (operational runner model = declarative specification; interpretation of the regenerated code = operational model) + differential correspondence harness in two build variants with composite-output and real-stdout sub-modes + regenerated code, constants and expressions"
